@@ -309,6 +309,29 @@ func runRT(c RTCase) *h.Result {
 			return fail("%s of the bag parsed from %q wrote %q, read as JSON: %s", c.W.form(), text, written, d)
 		}
 	}
+	if strings.HasPrefix(c.Via, "json-parse") && (c.Doc.T == "obj" || c.Doc.T == "arr") {
+		// several documents in one text, every bag kept by the function until the parse is over: each one must
+		// still be its own document afterwards
+		strict := ""
+		if c.Via == "json-parse-strict" {
+			strict = " t"
+		}
+		sc.Let("txt", slip.String(text+"\n"+text+"\n{\"zz\": {\"e\": 5}}"))
+		out := ev.Eval(sc, `(let ((r nil)) (json-parse (lambda (x) (setq r (cons x r))) txt`+strict+`) (nreverse r))`)
+		l, _ := out.Val.(slip.List)
+		if out.Kind != ev.Value || len(l) != 3 {
+			return fail("json-parse of three documents (%q twice and {\"zz\": {\"e\": 5}}) with a function that keeps the bags: %s", text, out)
+		}
+		for i := 0; i < 2; i++ {
+			bi, ok := bagOf(l[i])
+			if !ok {
+				return fail("json-parse of three documents: item %d is %s", i, ev.Show(l[i]))
+			}
+			if d := refpath.Conforms(want, bi.Any); d != "" {
+				return fail("json-parse of three documents (%q twice and {\"zz\": {\"e\": 5}}): after the parse the bag of document %d is no longer its document: %s", text, i+1, d)
+			}
+		}
+	}
 	reparse := []string{"make-bag"}
 	if c.W.JSON == "t" {
 		reparse = append(reparse, "json-parse-strict")
